@@ -1,5 +1,6 @@
 import PcfgVerif.Model.OmenTrainer
 import PcfgVerif.Model.OmenProb
+import PcfgVerif.Model.OmenFiles
 import PcfgVerif.Drive.Omen
 /-! Driver commands for the trainer / scorer side of OMEN (C11, C18). -/
 namespace Drive.OmenTrainer
@@ -19,6 +20,32 @@ def parseNext : List String → Option (List (Char × Nat))
     let l ← l.toNat?
     let more ← parseNext rest
     pure ((Char.ofNat c, l) :: more)
+
+/-- `level:codepoints` records of one OMEN file -/
+def parseNLines (toks : List String) : Option (List NLine) :=
+  toks.mapM fun tok =>
+    match tok.splitOn ":" with
+    | [l, k] => do
+      let l ← l.toNat?
+      let k ← parseStr k
+      pure (l, k)
+    | _ => none
+
+/-- sections of a token list separated by `|` -/
+def splitOnBar : List String → List (List String)
+  | [] => [[]]
+  | t :: r =>
+    if t == "|" then [] :: splitOnBar r
+    else match splitOnBar r with
+      | [] => [[t]]
+      | s :: ss => (t :: s) :: ss
+
+def showRows {α : Type} (f : α → String) (rows : List (List α)) : String :=
+  "/".intercalate (rows.map fun r => ",".intercalate (r.map f))
+
+/-- the loaded `cp` dict, canonically: every (prefix, level) with its letters, sorted by the harness -/
+def showCp (cp : List (Str × List (Nat × List Char))) : String :=
+  ";".intercalate (cp.flatMap fun e => e.2.map fun g => s!"{showStr e.1}@{g.1}={showStr g.2}")
 
 def showLvl : Option Nat → String
   | some n => toString n
@@ -55,6 +82,21 @@ def step (st : St) : List String → St × String
       match st.t.toTables.enumLevel lvl lim with
       | some gs => (st, s!"n={gs.length}")
       | none => (st, "raise")
+    | _, _ => (st, "bad-op")
+  | "of.load" :: ml :: ng :: rest =>
+    -- the guesser's `load_rules` on the records of IP.level | CP.level | LN.level (sections separated by `|`)
+    match ml.toNat?, ng.toNat? with
+    | some ml, some ng =>
+      let secs := splitOnBar rest
+      match secs with
+      | [ipT, cpT, lnT] =>
+        match parseNLines ipT, parseNLines cpT, lnT.mapM (·.toNat?) with
+        | some ipL, some cpL, some lnL =>
+          match loadIp ml ipL, loadCp ml cpL, loadLn ml ng lnL with
+          | some ip, some cp, some ln => (st, s!"ip={showRows showStr ip} ln={showRows toString ln} cp={showCp cp}")
+          | _, _, _ => (st, "raise")
+        | _, _, _ => (st, "bad-op")
+      | _ => (st, "bad-op")
     | _, _ => (st, "bad-op")
   | "ot.third" :: pws =>
     -- the third pass over the whole list; answer: `omen_pws_per_level.txt` (most_common order of the tally)
